@@ -318,7 +318,7 @@ def interesting_value(rng, f):
 
 BYTE_KINDS = ["flip", "set", "burst", "zero", "trunc", "del", "dup", "ins", "swap", "append"]
 CUT_VALUES = [0, 1, 2, 3, 6, 7, 8, 15, 16, 31, 63, 127, 128, 255, 256, 511, 1023, 65535]
-FIELD_KINDS = ["f_wrap_unit", "f_frag_len", "f_block_cut", "f_coeff_huge", "f_frag_alias", "f_fixed", "f_uint", "f_bool", "f_coeff", "f_offsets", "f_picnum", "f_trunc_unit", "f_unit_drop", "f_unit_dup", "f_lenbyte", "f_ld_resize"]
+FIELD_KINDS = ["f_coeff_long", "f_wrap_unit", "f_frag_len", "f_block_cut", "f_coeff_huge", "f_frag_alias", "f_fixed", "f_uint", "f_bool", "f_coeff", "f_offsets", "f_picnum", "f_trunc_unit", "f_unit_drop", "f_unit_dup", "f_lenbyte", "f_ld_resize"]
 ALL_KINDS = BYTE_KINDS + FIELD_KINDS
 
 
@@ -538,6 +538,50 @@ def gen_fault(rng, fmap, kind, data_len):
             {"k": "setbits", "bit": blk.start, "n": width, "val": new_len, "field": blk.name},
         ]
         return {"k": "seq", "ops": ops, "value": v if v < (1 << 20) else "huge", "cut": c, "code_bits": len(code)}, f.start // 8
+    if kind == "f_coeff_long":
+        # the FIRST coefficient of a high-quality slice block (byte-aligned) is
+        # re-coded as a value of 100..1100 data bits; the block is grown to hold
+        # the code (length byte rewritten, 0xFF bytes inserted, parse offsets
+        # re-linked), the rest of the block reads as zero coefficients
+        fs = [f for f in fmap.by_kind.get("coeff", []) if 0 <= f.unit < len(fmap.units) and fmap.units[f.unit]["code"] in (0xE8, 0xEC)]
+        if not fs:
+            return None
+        blocks = [g for g in fmap.by_kind.get("fixed", []) if g.name in ("slice_y_length", "slice_c1_length", "slice_c2_length") and any(f.start == g.end for f in fs)]
+        if not blocks:
+            return None
+        blk = rng.choice(blocks)
+        f = next(f for f in fs if f.start == blk.end)
+        u = fmap.units[f.unit]
+        scaler = 1
+        for g in fmap.fields:
+            if g.start >= f.start:
+                break
+            if g.name == "slice_size_scaler":
+                scaler = g.value
+        unit = 8 * max(1, scaler)
+        nb = rng.choice([100, 128, 255, 256, 257, 300, 520, 600, 1100])
+        v = (1 << (nb - 1)) | rng.getrandbits(nb - 1)
+        code = exp_golomb(v) + rng.choice("01")
+        new_len = (len(code) + unit - 1) // unit + rng.choice([0, 0, 1])
+        if new_len > 255:
+            return None
+        old_end = blk.end + blk.value * unit
+        if old_end > n * 8:
+            return None
+        grow = new_len - blk.value
+        ops = []
+        if grow > 0:
+            nbytes = grow * unit // 8
+            ops.append({"k": "ins", "at": old_end // 8, "hex": "ff" * nbytes})
+            ops.append({"k": "addfield", "at": u["start"] + 5, "delta": nbytes, "nonzero_only": True})
+            if u["end"] + 13 <= fmap.nbytes:
+                ops.append({"k": "addfield", "at": u["end"] + 9 + nbytes, "delta": nbytes, "nonzero_only": True})
+            ops.append({"k": "setbits", "bit": blk.start, "n": 8, "val": new_len, "field": blk.name})
+            room = new_len * unit
+        else:
+            room = blk.value * unit
+        ops.append({"k": "putbits", "bit": f.start, "bits01": code, "ones": room - len(code), "field": f.name})
+        return {"k": "seq", "ops": ops, "value_bits": nb, "code_bits": len(code)}, f.start // 8
     if kind == "f_coeff_huge":
         # re-code one coefficient of a length-delimited (bounded) block of slice
         # data as a value needing 17..80 data bits and fill the rest of the block
